@@ -115,5 +115,6 @@ int main(int argc, char** argv)
         return rc::gen::exec([p]() { return *range<int>(0, 7) == 0 ? *genLongGapHistory() : *genFrameHistory(p); });
     };
     prop.run = runCase;
+    prop.normalize = [](FrameHistory& h) { boundHistory(h, 400); };
     return pbtMain(argc, argv, prop);
 }
